@@ -175,7 +175,10 @@ def ch_opt_errors(ctx) -> Channel:
            [["events", "ping"], ["ping__count", "10001"]], [["events", "ping"], ["ping__count", "10000"]],
            [["events", "pong"], ["ping__count", "10001"]], [["events", "scte35"], ["scte35__timescale", "0"]],
            [["events", "ping"], ["ping__version", "2"]], [["events", "ping"], ["ping__duration", "-1"]],
-           [["depth", "3162240001"]], [["depth", "3162240000"]], [["drift", "-3162240001"]],
+           [["depth", "3162240001"]], [["depth", "3162240000"]], [["drift", "-3162240001"]], [["drift", "-3162240000"]],
+           [["depth", "5000001"]], [["depth", "5000000"]], [["depth", "-5000001"]], [["leeway", "5000001"]],
+           [["events", "ping"], ["ping__start", "-1"], ["ping__inband", "0"]], [["events", "ping"], ["ping__start", "-1"]],
+           [["events", "scte35"], ["scte35__start", "-1"], ["scte35__inband", "false"]],
            [["vcorrupt", "1,x"]], [["vcorrupt", "1,PT5S"]], [["vcorrupt", "2024-03-05T10:20:30Z"]],
            [["start", "2024-03-05T10:20:30+24:00"]], [["start", "2024-03-05T10:20:30"]],
            [["drm", "all-foo"]], [["drm", "playready-foo"]], [["merr", "503=10:20:30Z"]]]
@@ -186,23 +189,33 @@ def ch_opt_errors(ctx) -> Channel:
         ch.errors.append(f"driver: {e}")
         model = ["driver-error"] * len(lines)
     client = app.client()
+    # every drift value the check accepts, on every time method (the answer is computed from now - drift)
+    qs += [[["drift", v]] for v in c16_http.INT_EDGE for _ in range(4)]
+    lines = [f"c16calc {O.query_string(q).encode().hex() or '-'}" for q in qs]
+    try:
+        model = common.run_driver(lines)
+    except Exception as e:
+        ch.errors.append(f"driver: {e}")
+        model = ["driver-error"] * len(lines)
+    methods = ["xsd", "iso", "http-ntp", "head"]
     with appboot.Clock(c16_http.NOW):
-        for q, m in zip(qs, model):
+        for i, (q, m) in enumerate(zip(qs, model)):
             ch.evaluations += 1
-            res = c16_http.run(client, "GET", "/time/xsd?" + O.query_string(q))
+            path = f"/time/{methods[i % 4]}"
+            res = c16_http.run(client, "GET", path + "?" + O.query_string(q))
             real = {200: "ok", 400: "ValueError"}.get(res.status, f"status{res.status}")
             ch.count(f"calc:{real}")
             if real != "ok":
                 ch.nontrivial.add(("calc", O.query_string(q)))
             why = c16_http.violates(res, q)
             if why:
-                ch.oracle_failures.append(http_failure("opt_errors", "GET", "/time/xsd", q, "anon", None, res, why))
+                ch.oracle_failures.append(http_failure("opt_errors", "GET", path, q, "anon", None, res, why))
             if m in ("driver-error",):
                 continue
             if m == "other":
                 continue
             if m != real:
-                ch.disagreements.append({"query": O.query_string(q), "model": m, "impl": real})
+                ch.disagreements.append({"query": O.query_string(q), "path": path, "model": m, "impl": real})
     return ch
 
 
@@ -535,6 +548,14 @@ class HttpFuzz:
         "/dash/vod/bbb/bbb_v7/1.m4v?events=scte35&scte35__program_id=70000&scte35__interval=10",
         "/stream/1?verr=404%3D2", "/stream/1?depth=x", "/stream/1?events=scte35&scte35__program_id=-1&scte35__inband=0&scte35__count=2",
         "/time/head?drift=9007199254740993",
+        # work amplification: the response grows with a request value
+        "/dash/live/bbb/hand_made.mpd?timeline=1&start=epoch&depth=2147483648",
+        "/dash/live/bbb/hand_made.mpd?timeline=1&start=epoch&depth=5000000",
+        "/dash/live/bbb/manifest_n.mpd?start=epoch&depth=5000000",
+        "/mps/live/c16mps/hand_made.mpd?depth=2147483648", "/mps/live/c16mps/hand_made.mpd?depth=5000000&start=epoch",
+        "/play/mps/live/c16mps/manifest_e.mpd/index.html?depth=2147483648",
+        "/dash/live/bbb/hand_made.mpd?events=ping&ping__inband=0&ping__count=10000",
+        "/dash/vod/bbb/bbb_v7/1.m4v?events=ping&ping__interval=1&ping__timescale=2500",
     ]
 
     def regressions(self):
@@ -581,7 +602,7 @@ class HttpFuzz:
         value of its kind's accepted pool and a hostile one"""
         rng = self.rng
         targets = ["/dash/live/bbb/hand_made.mpd", "/dash/vod/tears/manifest_e.mpd", "/dash/live/c16na/manifest_n.mpd",
-                   "/dash/live/bbb/bbb_v7/init.m4v", "/dash/vod/bbb/bbb_a1_enc/1.m4a", "/time/iso",
+                   "/dash/live/bbb/bbb_v7/init.m4v", "/dash/vod/bbb/bbb_a1_enc/1.m4a", "/time/iso", "/time/http-ntp", "/time/xsd",
                    "/mps/live/c16mps/hand_made.mpd", "/play/live/bbb/hand_made/index.html",
                    "/patch/bbb/hand_made/1709634000", "/dash/vod/bbb/bbb_v7/2.m4v", "/stream/1"]
         for name in self.names:
@@ -600,7 +621,10 @@ class HttpFuzz:
                 continue
             method = rng.choice(sorted(rule.methods & {"POST", "PUT", "DELETE"}))
             q = [] if rng.random() < .7 else [[rng.choice(["ajax", "csrf_token", "next"]), rng.choice(["1", "x", ""])]]
-            self.one(method, path, q, rng.choice(["anon", "media", "admin", "user"]),
+            # DELETE /stream/<spk> needs no CSRF token (C15's subject): privileged roles do not send
+            # DELETE, so that the world of streams stays as built
+            who = rng.choice(["anon", "user"] if method == "DELETE" else ["anon", "media", "admin", "user"])
+            self.one(method, path, q, who,
                      rng.choice([None, None, {"X-Requested-With": "XMLHttpRequest"}]), body=rng.choice(BODIES),
                      endpoint=rule.endpoint)
 
@@ -626,8 +650,13 @@ def ch_fuzz_http(ctx) -> Channel:
         fz.regressions()
         fz.sweep()
         fz.every_option()
-        fz.random_gets(ctx.scale(2300, 45000))
+        fz.random_gets(ctx.scale(1900, 45000))
+        before = c16_http.pools(fz.app)
         fz.mutating(ctx.scale(250, 4000))
+        after = c16_http.pools(fz.app)
+        for k in ("streams", "mps", "mfids", "kpks", "users"):
+            if before[k] != after[k]:
+                ch.errors.append(f"the junk POST/PUT/DELETE requests changed the world: {k} {before[k]} -> {after[k]}")
         ch.count("seconds", int(time.perf_counter() - t0))
     ch.sample({"routes": len(fz.rules), "option_names": len(fz.names), "streams": fz.P["streams"],
                "multi_period": fz.P["mps"]}, limit=1)
